@@ -1190,6 +1190,7 @@ class Pyramid(object):
 
     def _visit_leaves_parallel(self, callback, total, cli_progress, parallel):
         import multiprocessing as mp
+        from .par_util import finish_work_queue, put_work_item
 
         ready_queue = mp.Queue(maxsize=2 * parallel)
         done_event = mp.Event()
@@ -1214,15 +1215,19 @@ class Pyramid(object):
         with progress_bar(total=total, show=cli_progress) as progress:
             for pos, tile, is_leaf, _data in riter:
                 if is_leaf:
-                    ready_queue.put((pos, tile))
+                    put_work_item(
+                        ready_queue,
+                        (pos, tile),
+                        workers,
+                        "the parallel leaf visit",
+                    )
                     progress.update(1)
 
                 riter.set_data(None)
 
         # All done!
 
-        ready_queue.close()
-        ready_queue.join_thread()
+        finish_work_queue(ready_queue, workers, "the parallel leaf visit")
         done_event.set()
 
         for w in workers:
